@@ -55,6 +55,7 @@ struct Gen {
   std::string body_xml, eq_xml, tendon_xml, act_xml, sensor_xml, contact_xml, key_ctrl;
   std::vector<std::string> bodies, hinges, slides, alljoints1d, sites, geoms, freebodies;
   Model m;
+  bool f_adhesion = false, f_surfacevel = false, f_gravcomp = false;   // per-model features behind the mjModel.flg_* switches
   Gen(Rng& rr, const GenOpts& oo, const std::set<int>& md) : r(rr), o(oo), mdrop(md) {}
   bool keep() { return !mdrop.count(elem++); }
   static std::string f(double v) { char b[40]; snprintf(b, sizeof b, "%.4g", v); return b; }
@@ -74,6 +75,8 @@ struct Gen {
     if (r.chance(0.2)) g += " friction=\"" + f(r.uniform(0.2, 1.5)) + " 0.005 0.0001\"";
     if (r.chance(0.15)) g += " condim=\"" + std::to_string(r.chance(0.5) ? 1 : (r.chance(0.5) ? 4 : 6)) + "\"";
     if (r.chance(0.1)) g += " group=\"" + std::to_string(r.range(1, 3)) + "\"";
+    if (f_adhesion && r.chance(0.4)) g += " adhesion=\"" + f(r.uniform(0.2, 3)) + "\"" + (r.chance(0.3) ? " margin=\"0.01\" gap=\"0.01\"" : "");
+    if (f_surfacevel && r.chance(0.4)) g += " surfacevel=\"" + vec3(r.uniform(-0.3, 0.3), r.uniform(-0.3, 0.3), 0) + " " + vec3(0, 0, r.uniform(-1, 1)) + "\"";
     if (!o.contacts) g += " contype=\"0\" conaffinity=\"0\"";
     g += " density=\"" + f(r.uniform(300, 1500)) + "\"/>";
     geoms.push_back(name);
@@ -82,7 +85,7 @@ struct Gen {
   }
 
   void body(std::string& out, const std::string& name, int depth, bool root, double x, double y, double z) {
-    out += "<body name=\"" + name + "\" pos=\"" + vec3(x, y, z) + "\">";
+    out += "<body name=\"" + name + "\" pos=\"" + vec3(x, y, z) + "\"" + (f_gravcomp && r.chance(0.5) ? " gravcomp=\"" + f(r.uniform(0.2, 1.2)) + "\"" : "") + ">";
     bodies.push_back(name);
     m.nbody++;
     // joint
@@ -146,6 +149,7 @@ struct Gen {
     opt += "/></option>";
 
     // ---------------- bodies
+    f_adhesion = r.chance(0.12); f_surfacevel = r.chance(0.1); f_gravcomp = r.chance(0.12);
     std::string wb = "<worldbody>";
     if (o.contacts) wb += "<geom name=\"floor\" type=\"plane\" size=\"5 5 0.1\"/>";
     wb += "<site name=\"s_world\" pos=\"0 0 1\" size=\"0.01\"/>";
@@ -303,6 +307,7 @@ struct Gen {
     snprintf(b, sizeof b, "gen(nbody=%d njnt=%d ngeom=%d nact=%d nsens=%d nten=%d neq=%d nkey=%d mocap=%d pairs=%d integ=%s solver=%s cone=%s island=%d sleep=%d)", m.nbody, m.njoint, m.ngeom,
              m.nact, m.nsensor, m.ntendon, m.neq, m.nkey, m.nmocap, m.npair, integ[m.integrator], solv[m.solver], cone[m.cone], (int)m.island, (int)m.sleep);
     m.summary = b;
+    if (f_adhesion || f_surfacevel || f_gravcomp) { m.summary.pop_back(); m.summary += std::string(f_adhesion ? " adhesion" : "") + (f_surfacevel ? " surfacevel" : "") + (f_gravcomp ? " gravcomp" : "") + ")"; }
     return m;
   }
 };
